@@ -6,7 +6,7 @@ package marshal_test
 // data/state, data/batch, data/trie, vm/systemSmartContracts and for N field assignments per type (fields filled by
 // reflection from boundary values: varint length boundaries 0,1,2^7-1,2^7,2^14-1,2^14,...,max; nil/empty/1/32/300-byte
 // slices; big ints nil,0,+-1,255,256,+-2^64; nested messages nil/filled; lists of length 0..3):
-//   deterministic: Marshal twice gives equal bytes, len == Size();  round trip: Unmarshal into a fresh value, Equal, re-Marshal
+//   deterministic: Marshal twice gives equal bytes, len == Size();  round trip: Unmarshal into a fresh value and into a previously used one, Equal, re-Marshal
 //   gives the same bytes;  through marshal.GogoProtoMarshalizer as the node does.
 // Bound: N = 200 assignments per type (2000 in the thorough tier).  Prints "RAC-EVALS n"; failures print "RAC-FAIL ...".
 
@@ -226,6 +226,18 @@ func racOne(mk func() racObj, seed uint64) (fail string) {
 	b3, err := m.Marshal(y)
 	if err != nil || !bytes.Equal(b1, b3) {
 		return "re-encoding of the decoded value differs"
+	}
+	// decoding into a destination that was used before gives the same structure (the marshalizer resets the destination)
+	z := mk()
+	g2 := &racGen{state: seed + 7919}
+	if err := g2.fill(reflect.ValueOf(z).Elem(), 0); err != nil {
+		return err.Error()
+	}
+	if err = m.Unmarshal(z, b1); err != nil {
+		return "unmarshal into a used destination: " + err.Error()
+	}
+	if !x.Equal(z) || !z.Equal(x) {
+		return fmt.Sprintf("value decoded into a used destination not Equal: %v vs %v", x, z)
 	}
 	return ""
 }
